@@ -1,0 +1,8 @@
+//go:build !verif
+
+package regexp2
+
+// verifOn guards the verification hooks; without the verif build tag they compile away.
+const verifOn = false
+
+func verifNoteTrackCap(int) {}
